@@ -2,9 +2,11 @@ package procs
 
 import (
 	"bytes"
+	"context"
 	"encoding/base64"
 	"encoding/json"
 	"fmt"
+	"net/http"
 	"net/url"
 	"os"
 	"path/filepath"
@@ -13,11 +15,15 @@ import (
 	"time"
 	"unicode/utf8"
 
+	"github.com/go-chi/jwtauth/v5"
 	"github.com/gofrs/uuid"
 	"pgregory.net/rapid"
 
 	"github.com/Flowpack/prunner"
 	"github.com/Flowpack/prunner/definition"
+	"github.com/Flowpack/prunner/server"
+	"github.com/Flowpack/prunner/store"
+	"github.com/Flowpack/prunner/taskctl"
 
 	"verif/internal/ev"
 )
@@ -93,7 +99,7 @@ func TestC19(t *testing.T) {
 	if os.Getenv("VERIF_TIER") == "thorough" {
 		maxLen = 8 << 20
 	}
-	col := ev.Get("C19", "output", "1-6 jobs x 1-4 tasks running at the same time through the real TaskRunner; each task has 1-4 commands, each 'vhelper emit <spec>' (a generated sequence of stdout/stderr chunks with pauses; sizes 0 B to 300 KB, 8 MB in the thorough tier; partial last lines; arbitrary bytes or valid UTF-8) an interpreter builtin (echo/printf), a child that re-opens /dev/stdout or /dev/stderr by path (> and >>), and emit commands whose streams the script merges (2>&1, 1>&2: the log must keep the order of the writes); every chunk starts with a (job,task,stream,#) marker; task names over letters/digits/_-. space and non-ASCII, in a quarter of the cases two names of one job that differ in a single character (space/underscore, case, accents, CJK); oracle: FileOutputStore.Reader(job,task,stream) equals the concatenation, in order, of that task's chunks for that stream over all its commands, GET /job/logs returns the same as strings (UTF-8 tasks), a task the job does not have and an unknown job give 404; a sixth of the tasks end with a failing command (their output up to it must still be complete) and half of the cases run a second round of the same jobs on the same store; non-trivial = >=64 KiB on a stream or >=2 commands or both streams used, with >=2 tasks writing at once; distinct by (shape of the case)")
+	col := ev.Get("C19", "output", "1-6 jobs x 1-4 tasks running at the same time through the real TaskRunner; each task has 1-4 commands, each 'vhelper emit <spec>' (a generated sequence of stdout/stderr chunks with pauses; sizes 0 B to 300 KB, 8 MB in the thorough tier; partial last lines; arbitrary bytes or valid UTF-8) an interpreter builtin (echo/printf), a child that re-opens /dev/stdout or /dev/stderr by path (> and >>), and emit commands whose streams the script merges (2>&1, 1>&2: the log must keep the order of the writes); every chunk starts with a (job,task,stream,#) marker; task names over letters/digits/_-. space and non-ASCII, in a quarter of the cases two names of one job that differ in a single character (space/underscore, case, accents, CJK); oracle: FileOutputStore.Reader(job,task,stream) equals the concatenation, in order, of that task's chunks for that stream over all its commands, GET /job/logs returns the same as strings (UTF-8 tasks), a task the job does not have and an unknown job give 404; in half of the cases a second runner is started from a store that knows the jobs but not their tasks' start (a crash between log write and state save) and must return the same logs; a sixth of the tasks end with a failing command (their output up to it must still be complete) and half of the cases run a second round of the same jobs on the same store; non-trivial = >=64 KiB on a stream or >=2 commands or both streams used, with >=2 tasks writing at once; distinct by (shape of the case)")
 	vh := helper(t)
 	rapid.Check(t, func(rt *rapid.T) {
 		nJobs := rapid.IntRange(1, 6).Draw(rt, "nJobs")
@@ -101,7 +107,8 @@ func TestC19(t *testing.T) {
 		defer os.RemoveAll(specDir)
 		defs := &definition.PipelinesDef{Pipelines: definition.PipelinesMap{}}
 		expects := make([][]taskExpect, nJobs)
-		big, multiCmd, bothStreams, anyFails, merged, lookalike := false, false, false, false, false, false
+		big, multiCmd, bothStreams, anyFails, merged, lookalike, restarted := false, false, false, false, false, false, false
+		var lastIDs []uuid.UUID
 		writers := 0
 		for j := 0; j < nJobs; j++ {
 			nT := rapid.IntRange(1, 4).Draw(rt, "nTasks")
@@ -219,13 +226,63 @@ func TestC19(t *testing.T) {
 				}
 			}
 			checkOutputs(rt, w, ids, expects, round)
+			lastIDs = ids
+		}
+		// The state of the jobs is saved every few seconds, the logs are written at once: a process that dies in
+		// between leaves complete logs of tasks whose start was never saved. A runner started from such a store
+		// (same log directory) reports those jobs as canceled - and still returns their logs.
+		if rapid.Bool().Draw(rt, "restartProbe") {
+			data := &store.PersistedData{}
+			for j, id := range lastIDs {
+				pj := store.PersistedJob{ID: id, Pipeline: fmt.Sprintf("p%d", j), Created: time.Now().Add(-time.Minute)}
+				for _, te := range expects[j] {
+					pj.Tasks = append(pj.Tasks, store.PersistedTask{Name: te.name, Script: []string{"true"}, Status: "waiting"})
+				}
+				data.Jobs = append(data.Jobs, pj)
+			}
+			ctx2, cancel2 := context.WithCancel(context.Background())
+			pr2, err := prunner.NewPipelineRunner(ctx2, defs, func(j *prunner.PipelineJob) taskctl.Runner {
+				tr, _ := taskctl.NewTaskRunner(w.out)
+				return tr
+			}, &fixedStore{data: data}, w.out)
+			if err != nil {
+				cancel2()
+				rt.Fatalf("restart from a store with unfinished jobs: %v", err)
+			}
+			pr2.ShutdownPollInterval = 5 * time.Millisecond
+			w2 := &realWorld{pr: pr2, out: w.out, token: w.token}
+			auth := jwtauth.New("HS256", []byte("procs-secret-0123456789"), nil)
+			w2.handler = server.NewServer(pr2, w.out, func(h http.Handler) http.Handler { return h }, auth, false)
+			for j, id := range lastIDs {
+				for ti, te := range expects[j] {
+					if !(te.utf8 && utf8.Valid(te.stdout) && utf8.Valid(te.stderr)) {
+						continue
+					}
+					code, body := w2.get("/job/logs?id=" + id.String() + "&task=" + url.QueryEscape(te.name))
+					var resp struct {
+						Stdout string `json:"stdout"`
+						Stderr string `json:"stderr"`
+					}
+					if code != 200 || json.Unmarshal(body, &resp) != nil {
+						rt.Fatalf("after a restart from a store that does not know the tasks' start: GET /job/logs of job %d task %d -> %d", j, ti, code)
+					}
+					if resp.Stdout != string(te.stdout) || resp.Stderr != string(te.stderr) {
+						rt.Fatalf("after a restart from a store that does not know the tasks' start: GET /job/logs of job %d task %d returns stdout %d / stderr %d bytes, the log store holds %d / %d", j, ti, len(resp.Stdout), len(resp.Stderr), len(te.stdout), len(te.stderr))
+					}
+				}
+			}
+			sctx, scancel := context.WithCancel(context.Background())
+			scancel()
+			_ = pr2.Shutdown(sctx)
+			cancel2()
+			restarted = true
 		}
 		if code, _ := w.get("/job/logs?id=" + uuid.Must(uuid.NewV4()).String() + "&task=x"); code != 404 {
 			rt.Fatalf("GET /job/logs for an unknown job -> %d, want 404", code)
 		}
 		nontrivial := (big || multiCmd || bothStreams) && writers >= 2
 		col.Add(fmt.Sprintf("%d/%d/%v/%v/%v/%v", nJobs, writers, big, multiCmd, bothStreams, expectsShape(expects)), nontrivial,
-			map[string]int{"failing-task": btoi(anyFails), "second-round-after-failure": btoi(anyFails && rounds == 2), "two-rounds": btoi(rounds == 2), ">=64KiB-on-a-stream": btoi(big), ">=2-commands": btoi(multiCmd), "both-streams": btoi(bothStreams), "writers>=2": btoi(writers >= 2), "writers>=6": btoi(writers >= 6), "merged-streams": btoi(merged), "lookalike-task-names": btoi(lookalike)}, writers,
+			map[string]int{"failing-task": btoi(anyFails), "second-round-after-failure": btoi(anyFails && rounds == 2), "two-rounds": btoi(rounds == 2), ">=64KiB-on-a-stream": btoi(big), ">=2-commands": btoi(multiCmd), "both-streams": btoi(bothStreams), "writers>=2": btoi(writers >= 2), "writers>=6": btoi(writers >= 6), "merged-streams": btoi(merged), "lookalike-task-names": btoi(lookalike), "logs-after-restart": btoi(restarted)}, writers,
 			map[string]interface{}{"jobs": nJobs, "tasks_writing": writers, "shape": expectsShape(expects)})
 	})
 }
